@@ -537,12 +537,13 @@ AREAS["C08"] = {'area': 'c08',
                  'Manager.Stop is called once',
                  'timestamps are non-decreasing per point identity and every batch has one author (batches of mixed authorship are compared with the '
                  'model only)'],
- 'level_text': 'proof: C08_filter_exact, C08_order, C08_only_subtree (from C06_complete), C08_edge_points are Coq theorems about the executable '
+ 'level_text': 'proof: C08_filter_exact, C08_order, C08_only_subtree (from C06_complete), C08_edge_points, C08_fold_agrees are Coq theorems about the executable '
                "model of the per-client callback composed with the store model's rebroadcast; the callback log of every running instrumented client "
                'is compared with the model and with the specification (echo filter predicate, order, subtree closure of the dump, completeness), and '
                "the configuration folded with data.MergePoints / MergeEdgePoints is compared with the store's",
  'level_note': 'trusted: Coq kernel, extraction, OCaml driver, Go harness; NATS per-subscription FIFO is a named hypothesis of C08_order; the fold '
-               'clause (client state = store) is checked on the real data.MergePoints per run, not proved (it needs the codec model of C10)'}
+               'clause is proved (C08_fold_agrees) for the scalar point fields of the decoder model against the store model for every history; for edge-point '
+               'fields and the child slice it is checked on the real data.MergePoints / MergeEdgePoints per run'}
 
 WIP = "not yet built in this round; the design (DESIGN.md section 6) claims it and the check is being added"
 NOT_CLAIMED = {pid: WIP for pid in ["C%02d" % i for i in range(1, 21)] if pid not in AREAS}
